@@ -379,6 +379,13 @@ theorem absPort_eq (hk : KInv s a) : absPort size s = toF size a s.now := by
     rw [hport] at hpk
     simp [portProc, hpk.2.2, hdev, hitems, dueOf_eq hk hport]
 
+theorem absPort_dev (size : Int → Nat) (s : KS) : (absPort size s).dev = absDev s := by
+  unfold absPort
+  split
+  · split <;> rfl
+  · rfl
+  · rfl
+
 /-! ## every reachable state -/
 
 theorem toF_a0 (arrivals : List (ℚ × Int)) : toF size (a0 arrivals) 0 = Fifo.init ({ avg := 0 } : PortSt ℚ) 0 := rfl
